@@ -6,4 +6,4 @@ java -version >/dev/null 2>&1 || { echo "java missing"; exit 2; }
 test -f /opt/veriftools/tla/tla2tools.jar || { echo "tla2tools.jar missing"; exit 2; }
 /venv/bin/python -c "import numpy, scipy, networkx, elfi" || { echo "cannot import elfi from /repo"; exit 2; }
 mkdir -p out evidence
-./check sany
+./check sany || echo "WARNING: some modules do not parse (their checks will report machinery failure)"
